@@ -199,9 +199,13 @@ func (s *scen) task(t int) sched.Runnable {
 		}
 	}
 	o := &taskObj{ids: []int{t}}
-	s.mu.Lock()
-	s.objs[t] = o
-	s.mu.Unlock()
+	// the task is made before the object is published in s.objs (a later submission of "the same
+	// object" reads o.task from another goroutine)
+	defer func() {
+		s.mu.Lock()
+		s.objs[t] = o
+		s.mu.Unlock()
+	}()
 	o.task = sched.NewTask(func() error {
 		s.mu.Lock()
 		k := o.next // the submission this run serves
